@@ -158,12 +158,20 @@ func (v *VestWorld) ModuleBal() sdk.Int {
 	return v.App.BankKeeper.GetBalance(v.Ctx, ModuleAddr(vestingtypes.ModuleName), v.App.CfevestingKeeper.GetParams(v.Ctx).Denom).Amount
 }
 
+// Pools returns the pools of the account owner names (records are matched by decoded address: a
+// genesis file may spell an owner in upper case).
 func (v *VestWorld) Pools(owner string) []*vestingtypes.VestingPool {
-	p, ok := v.App.CfevestingKeeper.GetAccountVestingPools(v.Ctx, owner)
-	if !ok {
+	oa, err := sdk.AccAddressFromBech32(owner)
+	if err != nil {
 		return nil
 	}
-	return p.VestingPools
+	var out []*vestingtypes.VestingPool
+	for _, avp := range v.App.CfevestingKeeper.GetAllAccountVestingPools(v.Ctx) {
+		if ra, err := sdk.AccAddressFromBech32(avp.Owner); err == nil && ra.Equals(oa) {
+			out = append(out, avp.VestingPools...)
+		}
+	}
+	return out
 }
 
 // PoolSum returns Σ (IL − S − W) over all pools of all owners.
